@@ -212,7 +212,7 @@ func RefHashes(w map[string]Placement) map[string]uint32 {
 		for _, pt := range p.EdgePoints {
 			h ^= RefCRC(pt)
 		}
-		if depth < 70 {
+		if depth < 1000 { // (guard against a cycle in a broken store; deeper than any tree the checks build)
 			for _, ck := range kids[p.ID] {
 				h ^= rec(ck, depth+1)
 			}
